@@ -17,6 +17,15 @@ def norm(e: ast.AST) -> str:
         return ast.dump(e)
 
 
+def clone(e: ast.AST) -> ast.AST:
+    """Fresh copy of an expression tree without the index's back-pointers (_parent)."""
+    try:
+        return ast.parse(ast.unparse(e), mode="eval").body
+    except SyntaxError:
+        m = ast.parse(ast.unparse(e))
+        return m.body[0] if len(m.body) == 1 else m
+
+
 def dotted(e: ast.AST) -> Optional[str]:
     """'self._cache.root_units' for Name/Attribute chains, else None."""
     parts = []
@@ -133,7 +142,7 @@ class Defs:
         return None
 
     def inline(self, e: ast.AST, depth: int = 6) -> ast.AST:
-        """Replace single-assignment temporaries by their defining expression."""
+        """Replace single-assignment temporaries by their defining expression (returns a fresh tree)."""
         defs = self
 
         class T(ast.NodeTransformer):
@@ -141,12 +150,10 @@ class Defs:
                 if isinstance(n.ctx, ast.Load) and depth > 0:
                     v = defs.single(n.id)
                     if v is not None and not isinstance(v, (ast.Lambda,)):
-                        import copy
-                        return defs.inline(copy.deepcopy(v), depth - 1)
+                        return defs.inline(v, depth - 1)
                 return n
 
-        import copy
-        return T().visit(copy.deepcopy(e))
+        return T().visit(clone(e))
 
     def roots(self, e: ast.AST, depth: int = 8, _seen=None) -> set:
         """Names/attribute paths/calls an expression ultimately derives from.
